@@ -85,11 +85,11 @@ theorem genConst_inv (reg : Reg) (v : CInt) (gs gs' : GS) (code : Code) (h : gen
     exact ⟨h2, h3, h4, Or.inr ⟨hs, label, h1, hc.symm⟩⟩
 
 theorem genString_inv (reg : Reg) (bs : List Byte) (gs gs' : GS) (code : Code) (h : genString reg bs gs = .ok (code, gs')) :
-    gs'.offset = gs.offset ∧ gs'.size = gs.size ∧ gs'.labelCount = gs.labelCount := by
+    gs'.offset = gs.offset ∧ gs'.size = gs.size ∧ gs'.labelCount = gs.labelCount ∧ gs'.constMap = gs.constMap := by
   unfold genString at h
   msimp at h
   cases reg <;> simp only [StateT.pure, pure, Except.pure, Except.ok.injEq, Prod.mk.injEq] at h <;>
-    (rw [← h.2]; exact ⟨rfl, rfl, rfl⟩)
+    (rw [← h.2]; exact ⟨rfl, rfl, rfl, rfl⟩)
 
 theorem genExpr_num (ctx : Ctx) (v : Word) (c : Option CInt) (reg : Reg) :
     genExpr ctx (.num v c) reg = genConst reg v := by unfold genExpr; rfl
